@@ -786,7 +786,13 @@ def rdSwitches (s : String) : Option Switches :=
   else if s == "only:fwdCfgImplicit" then some { Switches.spec with fwdCfgImplicit := true }
   else if s == "only:viewIterPanics" then some { Switches.spec with viewIterPanics := true }
   else if s == "only:mergedInsertPanics" then some { Switches.spec with mergedInsertPanics := true }
-  else none
+  else match s.splitOn ":" with
+    -- bits:<ignoreLists><prefixedKeysBug><fwdCfgImplicit><viewIterPanics><mergedInsertPanics>
+    | ["bits", b] =>
+      match b.toList.map (· == '1') with
+      | [a, b, c, d, e] => some ⟨a, b, c, d, e⟩
+      | _ => none
+    | _ => none
 
 def outStr (o : Out Unit) : String :=
   let evs := " ".intercalate (o.st.trace.map eventStr)
